@@ -351,6 +351,8 @@ def run_doc_check(mod, tier):
         evals += fmerged["n"]
         nontriv += fmerged["nontrivial"]
         outcomes.update(fmerged["outcomes"])
+    enumerated = evals
+    evals -= sum(v for k, v in outcomes.items() if str(k).startswith("pruned"))
     samples = []
     step = max(1, len(space) // 6)
     for i in range(0, len(space), step):
@@ -363,6 +365,7 @@ def run_doc_check(mod, tier):
         "transitions": max(1, feeds),
         "traces_validated_against_impl": evals,
         "evaluations": evals,
+        "cases_enumerated_including_pruned": enumerated,
         "distinct_nontrivial": nontriv,
         "rule": getattr(mod, "RULE", ""),
         "samples": samples[:8],
